@@ -176,7 +176,7 @@ func TestTreeRoundTrip(t *testing.T) {
 	}
 	tr2, _ := ParseTree("P:M { A = i:255 T = [ s:6162 ] F = s:78 }")
 	d := r.Compare(r.Root, v, tr2)
-	if d == nil || d.Class != "element count" {
+	if d == nil || d.Class != "element count (empty elements dropped)" {
 		t.Fatalf("want element count diff, got %v", d)
 	}
 }
